@@ -4,9 +4,9 @@
 package drv
 
 import (
-	"io"
 	"errors"
 	"fmt"
+	"io"
 	"net/http"
 	"os"
 	"path/filepath"
@@ -47,23 +47,24 @@ func (k Kind) Persistent() bool {
 const SingleName = "aaa"
 
 type Config struct {
-	Kind             Kind
-	AutoBucket       bool
-	HostBucket       bool
-	HostBases        []string
-	NoVersioning     bool
-	FailOnUnimplPage bool
-	NoIntegrity      bool
-	TimeSkew         bool // keep the default 15 min request-time skew check
-	MetaLimit        int
-	BoltSync         bool                    // keep bbolt's fsyncs (crashmc); default NoSync for speed
-	FsWrap           func(afero.Fs) afero.Fs // wraps the base fs handed to the backend (schedmc / crashmc)
-	MetaFsWrap       func(afero.Fs) afero.Fs // wraps the metadata fs of single-bucket worlds
-	PutFault         bool                    // wrap the backend so that PutObject can be made to fail (World.FailPuts)
-	ReuseDir         string                  // open existing storage at this directory (crash images, reopen)
-	KeepDir          bool                    // do not remove the storage directory on Close
-	MemFs            afero.Fs                // reuse an existing MemMapFs (reopen on -mem worlds)
-	MemMetaFs        afero.Fs
+	Kind              Kind
+	AutoBucket        bool
+	HostBucket        bool
+	HostBases         []string
+	HostBucketOffLast bool // append WithHostBucket(false) after the bases (option order must not matter)
+	NoVersioning      bool
+	FailOnUnimplPage  bool
+	NoIntegrity       bool
+	TimeSkew          bool // keep the default 15 min request-time skew check
+	MetaLimit         int
+	BoltSync          bool                    // keep bbolt's fsyncs (crashmc); default NoSync for speed
+	FsWrap            func(afero.Fs) afero.Fs // wraps the base fs handed to the backend (schedmc / crashmc)
+	MetaFsWrap        func(afero.Fs) afero.Fs // wraps the metadata fs of single-bucket worlds
+	PutFault          bool                    // wrap the backend so that PutObject can be made to fail (World.FailPuts)
+	ReuseDir          string                  // open existing storage at this directory (crash images, reopen)
+	KeepDir           bool                    // do not remove the storage directory on Close
+	MemFs             afero.Fs                // reuse an existing MemMapFs (reopen on -mem worlds)
+	MemMetaFs         afero.Fs
 }
 
 // Clock is the harness-owned time source (constant unless advanced).
@@ -235,6 +236,9 @@ func (w *World) buildFaker() {
 	}
 	if len(cfg.HostBases) > 0 {
 		opts = append(opts, gofakes3.WithHostBucketBase(cfg.HostBases...))
+	}
+	if cfg.HostBucketOffLast {
+		opts = append(opts, gofakes3.WithHostBucket(false))
 	}
 	if cfg.NoVersioning {
 		opts = append(opts, gofakes3.WithoutVersioning())
